@@ -1,6 +1,6 @@
 import MgProof.C05.TsStep
 import MgProof.C05.RingInv
-import MgProof.C05.SowrInv
+import MgProof.C05.SowrStep
 import MgModel.C05.TsOrig
 /-!
 # C05 — concurrent memory pools never hand out a block that is still owned
@@ -122,6 +122,56 @@ theorem ts_orig_not_safe :
   have := h 2 abaProgs s hr hl
   omega
 
+/-! ## sowr pool (one allocating thread, one freeing thread) -/
+
+/-- **Clause 1, sowr pool.** For every capacity `2^k`, every start value of the free-running
+32-bit `alloc_idx` (a multiple of the capacity, so also across its wrap), every pair of
+programs and every interleaving of the allocating and the freeing thread (the same thread may
+do both: sequential histories): while the history is legal — every freed block is owned; a
+free releases the block and every block allocated before it — and the pool's contract holds
+(`misuse = 0`), no allocation returns a block that is still owned. -/
+theorem sowr_no_double_handout (k base n : Nat) (progs : List (List Op)) (hk : k ≤ 32) (hb : 2 ^ k ∣ base)
+    (s : Sowr.St) (hr : Reach Sowr.step (Sowr.mkInit (2 ^ k) base n progs) s)
+    (hl : s.g.illegal = 0) (hm : s.misuse = 0) : s.g.double = 0 := by
+  obtain ⟨_, c⟩ := Sowr.reach_inv hk hb hr ⟨hl, hm⟩
+  exact c.dbl
+
+/-- **Clause 2, sowr pool.** NULL is returned only when `cap - 1` blocks are outstanding
+(allocated and not yet returned by a completed `free`) at the moment `free_idx` is loaded:
+the usable capacity is `cap - 1` because allocation stops one block short of the last freed
+position. A history that keeps at most `cap - 2` blocks outstanding is never refused. -/
+theorem sowr_null_only_when_exhausted (k base n : Nat) (progs : List (List Op)) (hk : k ≤ 32)
+    (hb : 2 ^ k ∣ base) (s : Sowr.St) (hr : Reach Sowr.step (Sowr.mkInit (2 ^ k) base n progs) s)
+    (hl : s.g.illegal = 0) (hm : s.misuse = 0) : s.spuriousNull = 0 := by
+  obtain ⟨_, c⟩ := Sowr.reach_inv hk hb hr ⟨hl, hm⟩
+  exact c.spn
+
+/-- **Clause 1, sowr pool, state form.** Owned blocks carry distinct allocation serials inside
+the window of the last `cap - 1` allocations, each at position `serial % cap`; at most
+`cap - 1` blocks are outstanding. -/
+theorem sowr_owned_window (k base n : Nat) (progs : List (List Op)) (hk : k ≤ 32) (hb : 2 ^ k ∣ base)
+    (s : Sowr.St) (hr : Reach Sowr.step (Sowr.mkInit (2 ^ k) base n progs) s)
+    (hl : s.g.illegal = 0) (hm : s.misuse = 0) :
+    s.g.nextSerial ≤ s.nRet + s.cap - 1 ∧
+    ∀ b, s.g.owned b = true → b < s.cap ∧ s.g.serial b % s.cap = b ∧ s.nRet ≤ s.g.serial b ∧
+      s.g.serial b < s.g.nextSerial := by
+  obtain ⟨rc, c⟩ := Sowr.reach_inv hk hb hr ⟨hl, hm⟩
+  obtain ⟨r1, _, r3⟩ := c.rc
+  refine ⟨by omega, ?_⟩
+  intro b hb'
+  obtain ⟨h1, h2, h3, h4⟩ := c.own b hb'
+  have := Sowr.nret_le_frontier c
+  exact ⟨h1, h3, by omega, h2⟩
+
+/-- non-vacuity: capacity 4, `alloc_idx` started 4 below the 2^32 wrap; the allocating thread
+takes three blocks, the freeing thread frees the newest one (releasing all three), then
+`alloc_idx` wraps -/
+example : ∃ s, Reach Sowr.step (Sowr.mkInit (2 ^ 2) 4294967292 2 [[.p, .p, .p, .p, .p], [.u]]) s ∧
+    s.g.illegal = 0 ∧ s.misuse = 0 ∧ s.allocIdx = 1 ∧ s.g.owned 3 = true ∧ s.g.owned 1 = false ∧ s.nRet = 3 :=
+  ⟨_, reach_runSched Sowr.step _ _ Reach.init
+      (List.replicate 3 { tid := 0 } ++ List.replicate 2 { tid := 1 } ++ List.replicate 3 { tid := 0 }),
+    by decide, by decide, by decide, by decide, by decide, by decide⟩
+
 /-! ## ring pool -/
 
 /-- **Clause 1, ring pool.** One allocating thread calling `muggle_ring_memory_pool_alloc`
@@ -161,7 +211,7 @@ theorem ring_locked_no_misuse (cap n : Nat) (progs : List (List Op)) (s : Ring.S
   all_goals (try (simp at hs; done))
   all_goals (try (split at hs))
   all_goals (try (simp at hs; done))
-  all_goals (try (injection hs with hs; injection hs with hs _; subst hs; simp_all [Ring.finish]))
+  all_goals (try (injection hs with hs; injection hs with hs _; subst hs; simp_all))
 
 /-- non-vacuity: a legal reachable state of the ring pool (two spin-locked allocators) -/
 example : ∃ s, Reach Ring.step (Ring.mkInit 2 2 true [[.a], [.a, .f]]) s ∧ s.g.illegal = 0 ∧ s.misuse = 0 ∧
